@@ -59,6 +59,8 @@ func (ex *Exec) locTargets(loc Loc, out map[string][]*Term) {
 type loopFrame struct {
 	targets map[string][]*Term // key -> refs the loop may write
 	pre     map[string]*Term   // key -> heap before the loop (and before the havoc)
+	preOther map[string]*Term  // undeclared keys: heap before the loop (pre-existing objects stay unchanged)
+	allocPre *Term             // allocation set at loop entry
 }
 
 // declareLoopFrame evaluates `loop k modifies` clauses at loop entry.
@@ -66,7 +68,7 @@ func (fx *fnExec) declareLoopFrame(lp *Loop, spec *LoopSpec, st *State) *loopFra
 	if len(spec.Modifies) == 0 {
 		return nil
 	}
-	lf := &loopFrame{targets: map[string][]*Term{}, pre: map[string]*Term{}}
+	lf := &loopFrame{targets: map[string][]*Term{}, pre: map[string]*Term{}, preOther: map[string]*Term{}, allocPre: st.alloc()}
 	for _, m := range spec.Modifies {
 		env := fx.specEnv(st, fx.entry, lp)
 		loc := env.evalLoc(m)
@@ -84,7 +86,22 @@ func (fx *fnExec) declareLoopFrame(lp *Loop, spec *LoopSpec, st *State) *loopFra
 func (fx *fnExec) havocTargets(lp *Loop, lf *loopFrame, key string, st *State) bool {
 	refs, ok := lf.targets[key]
 	if !ok {
-		return false
+		// a loop with a declared frame writes every other heap key only at objects it allocates
+		// itself: objects that existed before the loop keep their contents (checked at back edges)
+		if key == allocKey || len(key) < 2 || key[1] != ':' || key[0] == 'G' || key[0] == 'M' {
+			return false
+		}
+		srt := heapSorts[key]
+		if srt == nil || srt.Kind != KArray || srt.Idx != IntSort {
+			return false
+		}
+		pre := st.heapGet(key, srt)
+		lf.preOther[key] = pre
+		nw := Fresh(fmt.Sprintf("L%d_%s", lp.Ordinal, key), srt)
+		r := Fresh("r", IntSort)
+		fx.ex.assume(st, Forall([]*Term{r}, Implies(Select(lf.allocPre, r), Eq(Select(nw, r), Select(pre, r))), Select(nw, r)))
+		st.heapSet(key, nw)
+		return true
 	}
 	srt := heapSorts[key]
 	if srt == nil {
@@ -122,5 +139,17 @@ func (fx *fnExec) checkLoopFrame(lp *Loop, lf *loopFrame, st *State) {
 		}
 		goal := Implies(And(conds...), Eq(Select(cur, r), Select(pre, r)))
 		fx.oblige(fmt.Sprintf("loopframe.%d.%s", lp.Ordinal, k), "frame", st, goal, lp.Pos, "loop writes "+k+" only at the references of its `loop modifies` clause")
+	}
+	var others []string
+	for k := range lf.preOther {
+		others = append(others, k)
+	}
+	sort.Strings(others)
+	for _, k := range others {
+		pre := lf.preOther[k]
+		cur := st.heapGet(k, pre.Sort)
+		r := Fresh("lf_r", IntSort)
+		goal := Implies(Select(lf.allocPre, r), Eq(Select(cur, r), Select(pre, r)))
+		fx.oblige(fmt.Sprintf("loopframe.%d.%s", lp.Ordinal, k), "frame", st, goal, lp.Pos, "loop leaves objects that existed before it unchanged in "+k)
 	}
 }
